@@ -201,11 +201,16 @@ def _bound_by(db, chk, m):
                 if mem != "OPERATOR_KERNEL" and (stream, comm) != (-1, False):
                     continue
                 row = {"type": val, "s_name": T.P("NAME"), "stream": stream}
+                # every other column of the merged table is present too, as an unknown: a decision that reads one of them shows up in the path conditions
+                row.update({k_: T.P(f"row.{k_}") for k_ in ("s_cat", "cat", "pid", "tid", "index", "name", "duration", "event_idx", "dur", "ts", "correlation", "index_correlation")})
                 I = Interp(db, call_hook=hook, decide=lambda c, comm=comm: comm if c == ("truthy", ("iscomm", T.P("NAME"))) else (not comm if c == ("not", ("truthy", ("iscomm", T.P("NAME")))) else None))
                 runs = [r for r in I.explore(ref, lambda I: {"row": dict(row)}) if r.raised is None]
                 tag = f"type={mem} ({val!r}), stream={stream}, communication kernel={comm}"
                 if len(runs) != 1:
-                    chk.ob(rule, f"{tag}: single outcome", None, where, found=len(runs))
+                    others = sorted({x[1] for r_ in runs for c_ in r_.path for x in T.subterms(c_) if isinstance(x, tuple) and len(x) == 2 and x[0] == "param" and str(x[1]).startswith("row.")})
+                    chk.ob(rule, f"{tag}: the class depends on the edge type, the host/device side (stream) and the kernel name alone", False if others else None, where, found={"outcomes": len(runs), "also reads": others},
+                           accepted="row['type'], row['stream'], row['s_name']",
+                           why="deciding host vs device by a category list misclassifies host events of a category the list omits (e.g. cuda_driver launches counted as gpu_compute_bound)")
                     continue
                 want = want_tbl.get(mem) if mem in want_tbl else ("cpu_bound" if stream < 0 else ("gpu_communication_bound" if comm else "gpu_compute_bound"))
                 got = runs[0].ret
